@@ -7,11 +7,13 @@ CONSTANTS Types, MaxLabels
 VARIABLES stage, pick
 vars == <<stage, pick>>
 Perms(n) == {p \in [1..n -> 1..n] : \A i, j \in 1..n : i # j => p[i] # p[j]}
-Init == stage = 0 /\ pick = [type |-> "", n |-> 0, perm |-> <<>>, irf |-> FALSE, partner |-> "", revmc |-> FALSE]
+Init == stage = 0 /\ pick = [type |-> "", n |-> 0, perm |-> <<>>, irf |-> FALSE, partner |-> "", revmc |-> FALSE, two |-> FALSE]
 ChooseType == stage = 0 /\ stage' = 1 /\ \E t \in Types, n \in 2..MaxLabels : pick' = [pick EXCEPT !.type = t, !.n = n]
 ChoosePerm == stage = 1 /\ stage' = 2 /\ \E p \in Perms(pick.n) : pick' = [pick EXCEPT !.perm = p]
-ChooseContext == stage = 2 /\ stage' = 3 /\ \E i \in BOOLEAN, q \in {"none", "baseline", "shared"}, r \in BOOLEAN :
-                    pick' = [pick EXCEPT !.irf = i, !.partner = q, !.revmc = r]
+(* two: a second, clp-linked dataset declares the same labels in the permuted order while the first keeps the identity *)
+ChooseContext == stage = 2 /\ stage' = 3 /\ \E i \in BOOLEAN, q \in {"none", "baseline", "shared"}, r \in BOOLEAN, t \in BOOLEAN :
+                    /\ (t => (q = "none" /\ ~r /\ pick.type # "spectral"))
+                    /\ pick' = [pick EXCEPT !.irf = i, !.partner = q, !.revmc = r, !.two = t]
 Next == ChooseType \/ ChoosePerm \/ ChooseContext
 Spec == Init /\ [][Next]_vars
 Done == stage = 3
